@@ -38,6 +38,24 @@ def nrepIn (j : Json) : J.R (Nat ⊕ List Nat) :=
 
 /-! ### model ops -/
 
+def varArgIn (j : Json) : J.R (VarArg Rat) :=
+  match j with
+  | .null => pure .none
+  | .arr _ => VarArg.array <$> J.list J.rat j
+  | _ => VarArg.scalar <$> J.rat j
+
+def cfgOpIn (j : Json) : J.R (CfgOp Rat) := do
+  let attr ← J.field j "attr" J.str
+  match attr with
+  | "nenv" => CfgOp.setNenv <$> J.field j "value" J.nat
+  | "nrep" => CfgOp.setNrep <$> J.field j "value" nrepIn
+  | "var_env" => CfgOp.setVarEnv <$> J.fieldD j "value" varArgIn .none
+  | "var_rep" => CfgOp.setVarRep <$> J.fieldD j "value" varArgIn .none
+  | "var_err" => CfgOp.setVarErr <$> J.fieldD j "value" varArgIn .none
+  | _ => J.fail s!"cfg op: unknown attribute {attr}"
+
+/-- `phenotype()` on a protocol constructed with `nenv`, `nrep` and then modified by the setter calls `ops` (the repaired
+    `nenv` setter makes the replicate array follow; `phenotype` refuses a configuration without one count per environment) -/
 def opPhenotype : J.Op := fun j => do
   let gv ← J.field j "gv" (J.mat J.rat)
   let taxa ← J.fieldOpt j "taxa" (J.list J.str)
@@ -47,18 +65,20 @@ def opPhenotype : J.Op := fun j => do
   let nenv ← J.field j "nenv" J.nat
   let nrepRaw ← J.field j "nrep" nrepIn
   let draws ← J.field j "draws" (J.list draw)
-  let nenvAfter ← J.fieldOpt j "nenvAfter" J.nat        -- `pt.nenv = ...` after construction
-  match nrepSetter nenv nrepRaw with
+  let nenvAfter ← J.fieldOpt j "nenvAfter" J.nat        -- `pt.nenv = ...` after construction (older replay files)
+  let ops ← J.fieldD j "ops" (J.list cfgOpIn) []        -- setter calls after construction, in order
+  let ops := (match nenvAfter with | some m => [CfgOp.setNenv m] | none => []) ++ ops
+  match cfgInit (α := Rat) ntrait nenv nrepRaw .none .none .none with
   | none => pure (J.obj [("rejected", J.ofStr "nrep")])
-  | some nrep0 =>
-    match (match nenvAfter with | some m => reassignNenv m (nenv, nrep0) | none => some (nenv, nrep0)) with
-    | none => pure (J.obj [("rejected", J.ofStr "nenv")])
-    | some (nenv, nrep) =>
-    match phenotype gv taxa grp trait ntrait nenv nrep draws with
-    | none => pure (J.obj [("rejected", J.ofStr "phenotype")])
+  | some c0 =>
+    match cfgRun ntrait c0 ops with
+    | none => pure (J.obj [("rejected", J.ofStr "setter")])
+    | some c =>
+    match phenotype gv taxa grp trait ntrait c.nenv c.nrep draws with
+    | none => pure (J.obj [("rejected", J.ofStr "phenotype"), ("nenv", J.ofNat c.nenv), ("nrep", J.ofList J.ofNat c.nrep)])
     | some (cols, rows) =>
       pure (J.obj [("cols", J.ofList J.ofStr cols), ("rows", J.ofList recOut rows),
-                   ("nrep", J.ofList J.ofNat nrep)])
+                   ("nrep", J.ofList J.ofNat c.nrep)])
 
 def opTruePheno : J.Op := fun j => do
   let gv ← J.field j "gv" (J.mat J.rat)
@@ -108,6 +128,26 @@ def opSpecPheno : J.Op := fun j => do
     | none => (specPhenoKeysUnnamed gv.length grp nrep rows, !zero || specPhenoValsUnnamed gv nrep rows)
   pure (J.obj [("ok", J.ofBool (specPheno gv taxa grp nrep zero rows)),
     ("detail", J.ofStr s!"count={count} one_record_per_key_with_labels={keys} zero_noise_exact={vals}")])
+
+def resCellIn (j : Json) : J.R ResCell := do
+  let env ← J.field j "env" J.nat
+  let rep ← J.field j "rep" J.nat
+  let res ← J.field j "res" (J.list J.rat)
+  pure { env, rep, res }
+
+/-- the noise-structure oracle on the residuals `record − true value` of the implementation's frame (computed by the
+    harness in exact arithmetic, each record against the true value of the taxon it names) -/
+def opSpecNoise : J.Op := fun j => do
+  let tol ← J.field j "tol" J.rat
+  let ve ← J.field j "var_env" (J.list J.rat)
+  let vr ← J.field j "var_rep" (J.list J.rat)
+  let vx ← J.field j "var_err" (J.list J.rat)
+  let genuine ← J.field j "genuine" J.bool
+  let cells ← J.field j "cells" (J.list (J.list resCellIn))
+  let per := (List.zip cells (List.zip ve (List.zip vr vx))).map
+    (fun x => specNoiseTrait tol x.2.1 x.2.2.1 x.2.2.2 genuine x.1)
+  pure (J.obj [("ok", J.ofBool (specNoise tol ve vr vx genuine cells)),
+    ("detail", J.ofStr s!"noise_structure_per_trait={per}")])
 
 /-- Spec of the heritability clause on the implementation's `var_err` (and the population's genetic variance) -/
 def opSpecH2 : J.Op := fun j => do
@@ -194,22 +234,6 @@ def opSpecMeanBVNanNoGt : J.Op := fun j => do
 
 /-! ### the configuration object: constructor + setter history, layout, generator-call plan -/
 
-def varArgIn (j : Json) : J.R (VarArg Rat) :=
-  match j with
-  | .null => pure .none
-  | .arr _ => VarArg.array <$> J.list J.rat j
-  | _ => VarArg.scalar <$> J.rat j
-
-def cfgOpIn (j : Json) : J.R (CfgOp Rat) := do
-  let attr ← J.field j "attr" J.str
-  match attr with
-  | "nenv" => CfgOp.setNenv <$> J.field j "value" J.nat
-  | "nrep" => CfgOp.setNrep <$> J.field j "value" nrepIn
-  | "var_env" => CfgOp.setVarEnv <$> J.fieldD j "value" varArgIn .none
-  | "var_rep" => CfgOp.setVarRep <$> J.fieldD j "value" varArgIn .none
-  | "var_err" => CfgOp.setVarErr <$> J.fieldD j "value" varArgIn .none
-  | _ => J.fail s!"cfg op: unknown attribute {attr}"
-
 /-- constructor arguments + the setter calls made so far ⇒ stored attributes, the layout `phenotype()` walks through and
     the sequence of `multivariate_normal` calls it makes for `ntaxa` taxa -/
 def opConfig : J.Op := fun j => do
@@ -235,6 +259,6 @@ def ops : List (String × J.Op) :=
    ("c14.spec_pheno", opSpecPheno), ("c14.spec_h2", opSpecH2), ("c14.spec_meanbv", opSpecMeanBV),
    ("c14.spec_meanbv_nogt", opSpecMeanBVNoGt), ("c14.meanbv_nan", opMeanBVNan),
    ("c14.spec_meanbv_nan", opSpecMeanBVNan), ("c14.spec_meanbv_nan_nogt", opSpecMeanBVNanNoGt),
-   ("c14.config", opConfig)]
+   ("c14.config", opConfig), ("c14.spec_noise", opSpecNoise)]
 
 end Drv.C14
